@@ -256,6 +256,40 @@ fn utf8(cx: &Cx, alpha: &[u8], max_len: usize) {
     }
 }
 
+/// One special byte sequence inside an ASCII sea, at every position, for every buffer length and every
+/// start alignment: word-at-a-time shortcuts in the validation would show up here.
+const SPECIALS: &[&[u8]] = &[
+    &[0x80], &[0xff], &[0xc3], &[0xc3, 0xa9], &[0xc0, 0x80], &[0xe2, 0x82], &[0xe2, 0x82, 0xac], &[0xed, 0xa0, 0x80],
+    &[0xf0, 0x9f, 0x98], &[0xf0, 0x9f, 0x98, 0x80], &[0xf4, 0x90, 0x80, 0x80], &[0x00],
+];
+
+#[repr(align(64))]
+struct Aligned([u8; 128]);
+
+fn utf8_long(cx: &Cx, max_len: usize) {
+    for total in 0..=max_len {
+        for (si, sp) in SPECIALS.iter().enumerate() {
+            if sp.len() > total {
+                continue;
+            }
+            for pos in 0..=(total - sp.len()) {
+                for off in 0..8usize {
+                    let case = json!({"total": total, "special": si, "pos": pos, "align_offset": off});
+                    cx.eval("utf8_long", &case, || run_alloc(|| utf8_long_case(total, si, pos, off), true));
+                }
+            }
+        }
+    }
+}
+
+fn utf8_long_case(total: usize, si: usize, pos: usize, off: usize) -> R {
+    let mut buf = Aligned([b'a'; 128]);
+    let sp = SPECIALS[si];
+    buf.0[off + pos..off + pos + sp.len()].copy_from_slice(sp);
+    let bytes = &buf.0[off..off + total];
+    utf8_case(bytes)
+}
+
 // ------------------------------------------------------------------------------------------
 // COption / CResult / CTup
 
@@ -376,6 +410,9 @@ fn variants_case(which: usize) -> R {
             let (a, b, c) = t.into_tuple();
             ensure!(a.val == 1 && b.val == 2 && c.val == 3 && alive(&drops, 3), "tup:3_back", "CTup3 back");
         }
+        13 => {
+            return tuple_positions();
+        }
         _ => {
             let t: CTup4<Dc, Dc, Dc, Dc> = (Dc::new(1), Dc::new(2), Dc::new(3), Dc::new(4)).into();
             ensure!(t.0.val == 1 && t.1.val == 2 && t.2.val == 3 && t.3.val == 4 && alive(&drops, 4), "tup:4", "CTup4 order/payload");
@@ -390,7 +427,46 @@ fn variants_case(which: usize) -> R {
     Ok(digest(&(which, drops.ids())))
 }
 
-const VARIANT_CASES: usize = 13;
+/// Field positions of CTup2/3/4 for every combination of element types from {u8, u16, u32, u64}: the i-th field of
+/// the C tuple is the i-th element of the Rust tuple, in both directions, read *directly* (not via a round trip).
+macro_rules! tup_positions {
+    ($out:ident; [$($a:ty),*]) => { $( tup_positions!(@b $out; $a; [u8, u16, u32, u64]); )* };
+    (@b $out:ident; $a:ty; [$($b:ty),*]) => { $(
+        {
+            let t: CTup2<$a, $b> = ((1 as $a), (2 as $b)).into();
+            if t.0 != 1 as $a || t.1 != 2 as $b { $out.push(format!("CTup2<{},{}> from tuple", stringify!($a), stringify!($b))); }
+            let r: ($a, $b) = CTup2(1 as $a, 2 as $b).into();
+            if r != (1 as $a, 2 as $b) { $out.push(format!("CTup2<{},{}> into tuple", stringify!($a), stringify!($b))); }
+        }
+        tup_positions!(@c $out; $a; $b; [u8, u16, u32, u64]);
+    )* };
+    (@c $out:ident; $a:ty; $b:ty; [$($c:ty),*]) => { $(
+        {
+            let t: CTup3<$a, $b, $c> = ((1 as $a), (2 as $b), (3 as $c)).into();
+            if t.0 != 1 as $a || t.1 != 2 as $b || t.2 != 3 as $c { $out.push(format!("CTup3<{},{},{}> from tuple", stringify!($a), stringify!($b), stringify!($c))); }
+            let r: ($a, $b, $c) = CTup3(1 as $a, 2 as $b, 3 as $c).into_tuple();
+            if r != (1 as $a, 2 as $b, 3 as $c) { $out.push(format!("CTup3<{},{},{}> into tuple", stringify!($a), stringify!($b), stringify!($c))); }
+        }
+        tup_positions!(@d $out; $a; $b; $c; [u8, u16, u32, u64]);
+    )* };
+    (@d $out:ident; $a:ty; $b:ty; $c:ty; [$($d:ty),*]) => { $(
+        {
+            let t: CTup4<$a, $b, $c, $d> = ((1 as $a), (2 as $b), (3 as $c), (4 as $d)).into();
+            if t.0 != 1 as $a || t.1 != 2 as $b || t.2 != 3 as $c || t.3 != 4 as $d { $out.push(format!("CTup4<{},{},{},{}> from tuple", stringify!($a), stringify!($b), stringify!($c), stringify!($d))); }
+            let r: ($a, $b, $c, $d) = CTup4(1 as $a, 2 as $b, 3 as $c, 4 as $d).into_tuple();
+            if r != (1 as $a, 2 as $b, 3 as $c, 4 as $d) { $out.push(format!("CTup4<{},{},{},{}> into tuple", stringify!($a), stringify!($b), stringify!($c), stringify!($d))); }
+        }
+    )* };
+}
+
+fn tuple_positions() -> R {
+    let mut bad: Vec<String> = Vec::new();
+    tup_positions!(bad; [u8, u16, u32, u64]);
+    ensure!(bad.is_empty(), "tup:field_position", "{} of 672 conversions put an element into another field position, first: {}", bad.len(), bad[0]);
+    Ok(digest(&672u32))
+}
+
+const VARIANT_CASES: usize = 14;
 
 fn main() {
     quiet_panics();
@@ -423,9 +499,21 @@ fn main() {
             }),
         },
         Section {
+            name: "utf8_long",
+            explore: Box::new(|cx: &Cx| {
+                let l = cx.tier.pick(24, 40);
+                cx.rule("utf8_long", &format!("buffers of every length 0..={} filled with ASCII plus ONE special sequence (continuation byte, 0xff, truncated/complete 2-, 3-, 4-byte sequences, overlong, surrogate, > U+10FFFF, NUL) at every position, starting at every alignment offset 0..8 of a 64-byte aligned array; same oracle as [utf8]", l));
+                utf8_long(cx, l);
+            }),
+            replay: Box::new(|c: &Value| {
+                let g = |k: &str| c[k].as_u64().unwrap() as usize;
+                run_alloc(|| utf8_long_case(g("total"), g("special"), g("pos"), g("align_offset")), true)
+            }),
+        },
+        Section {
             name: "variants",
             explore: Box::new(|cx: &Cx| {
-                cx.rule("variants", "every variant of COption/CResult and CTup1-4 with drop-counting, zero-sized and extreme payloads, both conversion directions plus take/as_ref/as_mut/ok/unwrap/into_tuple; payload moved exactly once");
+                cx.rule("variants", "every variant of COption/CResult and CTup1-4 with drop-counting, zero-sized and extreme payloads, both conversion directions plus take/as_ref/as_mut/ok/unwrap/into_tuple; payload moved exactly once; field positions of CTup2/3/4 read directly for all 336 element-type combinations over {u8,u16,u32,u64} in both directions");
                 for w in 0..VARIANT_CASES {
                     cx.eval("variants", &json!({"which": w}), || run_alloc(|| variants_case(w), true));
                 }
